@@ -1,14 +1,70 @@
-"""C08 - every bunch evolves as it would on its own (differential, bit for bit)"""
+"""C08 - every bunch evolves as it would on its own (API level differential, bit for bit; process level through the moments)"""
+import os
+import sys
+
+import vlib
 from checks import _api
+sys.path.insert(0, os.path.join(vlib.VERIF, "proc"))
+import pl  # noqa: E402
 LEVEL = "exploration"
+
+
+def process_level(res, tier):
+    exe = pl.build.build_bin("plain")
+    wd = pl.workdir("c08")
+    base = ["-s", 16, "-N", 16, "-T", 2, "-n", 4, "-G", 0, "--padding", 2, "--InitialDistZoom", 0.8, "-d", 0.001]
+    pats = {"single": [1e-3], "two": [1e-3, 1e-3], "gap": [1e-3, 0, 1e-3], "trailing-empty": [1e-3, 0], "three-unequal": [1e-3, 2e-3, 5e-4]}
+    if tier == "thorough":
+        pats.update({"leading-empty": [0, 1e-3], "four": [1e-3, 1e-3, 0, 1e-3]})
+    variants = [("linear", 4), ("sin", 3)] if tier == "thorough" else [("linear", 4)]
+    jobs = [(k, rf, it) for k in pats for rf, it in variants]
+
+    def do(j):
+        k, rf, it = j
+        a = base + ["--LinearRF", "true" if rf == "linear" else "false", "--InterpolationPoints", it, "-I"] + pats[k]
+        r = pl.run(exe, a, wd, out="o_%s_%s.h5" % (k, rf), timeout=600)
+        doc = pl.h5(r["h5"], maxv=100000) if r["rc"] == 0 else None
+        return j, r, doc
+    out = {j: (r, d) for j, r, d in pl.pmap(do, jobs)}
+    for rf, it in variants:
+        ref_r, ref = out[("single", rf, it)]
+        if ref is None or "error" in ref:
+            res.violate("C08/process/run-failed", "single " + rf, ref_r["log"][-200:], replay=dict(cmd=ref_r["cmd"]))
+            continue
+        for k in pats:
+            if k == "single":
+                continue
+            r, doc = out[(k, rf, it)]
+            case = "process pattern=%s rf=%s" % (k, rf)
+            rp = dict(cmd=r["cmd"], reference=ref_r["cmd"])
+            if doc is None or "error" in doc:
+                res.violate("C08/process/run-failed", case, "rc=%s %s" % (r["rc"], r["log"][-200:]), replay=rp)
+                continue
+            nb = sum(1 for x in pats[k] if x > 0)
+            res.eval(case, pl.chash(case, doc["datasets"]["/BunchLength/data"]["rowhash"]), trivial=False)
+            for name in ("/BunchLength/data", "/EnergySpread/data", "/BunchPosition/data", "/EnergyAverage/data"):
+                rows, rrows = pl.rows(doc, name), pl.rows(ref, name)
+                if len(rows) != len(rrows) or any(len(x) != nb for x in rows):
+                    res.violate("C08/process/shape", case, "%s has shape %s" % (name, doc["datasets"][name]["dims"]), replay=rp)
+                    break
+                worst = max(abs(x - rr[0]) for row, rr in zip(rows, rrows) for x in row)
+                res.coverage["worst_process_bunch_vs_single"] = max(res.coverage.get("worst_process_bunch_vs_single", 0), worst)
+                if worst > 2e-6:
+                    res.violate("C08/process/%s/bunch-differs-from-single-bunch-run" % ("empty-bucket" if 0 in pats[k] else "filled"), case,
+                                "%s: a bunch of the train deviates from the single-bunch run by %.3g" % (name, worst), replay=rp)
+                    break
+    res.bounds_done.append("process level: filling patterns %s x RF models, moments of every bunch vs the single-bunch run" % sorted(pats))
 
 
 def run(res, tier):
     res.assumptions += [
         "x-direction kicks use one displacement field for all bunches (the drift is bunch independent by design); y-direction kicks get a different field per bunch",
         "bit-identity is demanded because multi- and single-bunch paths perform the same arithmetic in the same build",
+        "process level: no impedance, moments compared within 2e-6 (the per-bunch normalisation rescales the data)",
         "OpenCL paths compiled out"]
-    return _api.run(res, tier, ["C08_bunches"])
+    c = _api.run(res, tier, ["C08_bunches"])
+    process_level(res, tier)
+    return c
 
 
 replay = _api.replay
